@@ -116,3 +116,124 @@ pub fn step(
         position: gherkin::LineCol { line, col: 3 },
     }
 }
+
+// ---------------------------------------------------------------- features as JSON
+// {"id":line,"name","tags",["path":bool],"bg":[step],"scenarios":[scen],"rules":[rule]}
+// scen = {"id":line,"name","tags","steps":[step]}; step = {"id":line,"ty":0|1|2,"value"}
+// rule = {"id":line,"name","tags","bg":[step],"scenarios":[scen]}
+
+fn step_ty(n: u64) -> gherkin::StepType {
+    match n {
+        0 => gherkin::StepType::Given,
+        1 => gherkin::StepType::When,
+        _ => gherkin::StepType::Then,
+    }
+}
+
+pub fn step_from_json(v: &Value) -> gherkin::Step {
+    step(
+        step_ty(v["ty"].as_u64().unwrap_or(0)),
+        v["value"].as_str().unwrap_or_default(),
+        v["id"].as_u64().unwrap_or(0) as usize,
+    )
+}
+
+fn steps_from_json(v: &Value) -> Vec<gherkin::Step> {
+    v.as_array().map(|a| a.iter().map(step_from_json).collect()).unwrap_or_default()
+}
+
+fn background(steps: Vec<gherkin::Step>) -> Option<gherkin::Background> {
+    (!steps.is_empty()).then(|| gherkin::Background {
+        keyword: "Background".into(),
+        name: String::new(),
+        description: None,
+        steps,
+        span: gherkin::Span { start: 0, end: 0 },
+        position: gherkin::LineCol { line: 0, col: 1 },
+    })
+}
+
+pub fn scenario_from_json(v: &Value) -> gherkin::Scenario {
+    let mut s = scenario(
+        v["name"].as_str().unwrap_or_default(),
+        strs(&v["tags"]),
+        v["id"].as_u64().unwrap_or(0) as usize,
+    );
+    s.steps = steps_from_json(&v["steps"]);
+    s
+}
+
+pub fn rule_from_json(v: &Value) -> gherkin::Rule {
+    let mut r = rule(
+        v["name"].as_str().unwrap_or_default(),
+        strs(&v["tags"]),
+        v["id"].as_u64().unwrap_or(0) as usize,
+    );
+    r.background = background(steps_from_json(&v["bg"]));
+    r.scenarios = v["scenarios"]
+        .as_array()
+        .map(|a| a.iter().map(scenario_from_json).collect())
+        .unwrap_or_default();
+    r
+}
+
+pub fn feature_from_json(v: &Value) -> gherkin::Feature {
+    let mut f = feature(v["name"].as_str().unwrap_or_default(), strs(&v["tags"]));
+    f.position.line = v["id"].as_u64().unwrap_or(1) as usize;
+    if v["path"].as_bool().unwrap_or(false) {
+        f.path = Some(format!("/features/f{}.feature", f.position.line).into());
+    }
+    f.background = background(steps_from_json(&v["bg"]));
+    f.scenarios = v["scenarios"]
+        .as_array()
+        .map(|a| a.iter().map(scenario_from_json).collect())
+        .unwrap_or_default();
+    f.rules = v["rules"]
+        .as_array()
+        .map(|a| a.iter().map(rule_from_json).collect())
+        .unwrap_or_default();
+    f
+}
+
+pub fn step_to_json(s: &gherkin::Step) -> Value {
+    serde_json::json!({
+        "id": s.position.line,
+        "ty": match s.ty {
+            gherkin::StepType::Given => 0,
+            gherkin::StepType::When => 1,
+            gherkin::StepType::Then => 2,
+        },
+        "value": s.value,
+    })
+}
+
+pub fn scenario_to_json(s: &gherkin::Scenario) -> Value {
+    serde_json::json!({
+        "id": s.position.line,
+        "name": s.name,
+        "tags": s.tags,
+        "steps": s.steps.iter().map(step_to_json).collect::<Vec<_>>(),
+    })
+}
+
+pub fn rule_to_json(r: &gherkin::Rule) -> Value {
+    serde_json::json!({
+        "id": r.position.line,
+        "name": r.name,
+        "tags": r.tags,
+        "bg": r.background.iter().flat_map(|b| &b.steps).map(step_to_json).collect::<Vec<_>>(),
+        "scenarios": r.scenarios.iter().map(scenario_to_json).collect::<Vec<_>>(),
+    })
+}
+
+pub fn feature_to_json(f: &gherkin::Feature) -> Value {
+    serde_json::json!({
+        "id": f.position.line,
+        "name": f.name,
+        "tags": f.tags,
+        "path": f.path.is_some(),
+        "bg": f.background.iter().flat_map(|b| &b.steps).map(step_to_json).collect::<Vec<_>>(),
+        "scenarios": f.scenarios.iter().map(scenario_to_json).collect::<Vec<_>>(),
+        "rules": f.rules.iter().map(rule_to_json).collect::<Vec<_>>(),
+    })
+}
